@@ -17,21 +17,26 @@ SumSeq(s, i) == IF i > Len(s) THEN 0 ELSE s[i] + SumSeq(s, i + 1)
 RECURSIVE EvictL(_, _, _)
 EvictL(lens, newLen, max) == IF lens # <<>> /\ SumSeq(lens, 1) + newLen > max THEN EvictL(Tail(lens), newLen, max) ELSE lens
 
-RECURSIVE BlocksOk(_, _, _, _)
-BlocksOk(r, i, start, kept) ==
+\* exact = TRUE: against the data Matcher!Evict says is still retained (the as-built eviction, conformance only);
+\* exact = FALSE: the property itself -- true match, distance within the advertised window and within the data committed
+\* since the reset (an implementation that keeps more than the model, but stays inside its window, is not wrong)
+RECURSIVE BlocksOk(_, _, _, _, _)
+BlocksOk(r, i, start, kept, exact) ==
     IF i > Len(r.lens) THEN TRUE
     ELSE LET L == r.lens[i]
              k2 == EvictL(kept, L, r.slices * r.slice)
-             lo == start - SumSeq(k2, 1)
+             lo == IF exact THEN start - SumSeq(k2, 1) ELSE 0
              b == r.blocks[i]
          IN /\ (IF b.skip THEN b.seqs = <<>> ELSE M!SeqsOk(r.data, b.seqs, 1, start, lo, start + L, r.ws, r.minmatch))
-            /\ BlocksOk(r, i + 1, start + L, Append(k2, L))
+            /\ BlocksOk(r, i + 1, start + L, Append(k2, L), exact)
 \* built-in finder: the advertised window is slices * slice; a user matcher (C16) advertises what it likes
-Ok(r) == (r.builtin => r.ws = r.slices * r.slice) /\ BlocksOk(r, 1, 0, <<>>)
+Ok(r) == BlocksOk(r, 1, 0, <<>>, FALSE)
+Exact(r) == (r.builtin => r.ws = r.slices * r.slice) /\ BlocksOk(r, 1, 0, <<>>, TRUE)
 
 VARIABLE x
 Init == x = 0
 Next == /\ x = 0 /\ x' = 1
+        /\ PrintT(<<"DRIFT", Cardinality({i \in 1..Len(Rows) : Ok(Rows[i]) /\ ~Exact(Rows[i])})>>)
         /\ LET bad == {i \in 1..Len(Rows) : ~Ok(Rows[i])}
            IN PrintT(<<"ROWS", Len(Rows), "BAD", Cardinality(bad), {"matcher"},
                        IF bad = {} THEN <<>> ELSE LET S == {i \in bad : \A j \in bad : i <= j} IN <<Rows[CHOOSE i \in S : TRUE]>>>>)
